@@ -97,3 +97,147 @@ Proof.
   split; [vm_compute; reflexivity|]. split; [vm_compute; reflexivity|].
   eexists; vm_compute; reflexivity.
 Qed.
+
+(* ---------------------------------------------------------------------------------
+   total API (evaluator part), for the two FRAGMENTS of the language whose compile + run
+   correctness is proved in C01 (Proofs/CompileCorrect.v, Proofs/CompileCorrect2.v).
+   These are theorems about the MODEL's Vm.eval (Model/Vm.v) on those fragments only; they
+   say nothing about the rest of the language (closures that capture or escape, named
+   procedures, quasiquote, macros, the derived forms of the prelude, builtins without a
+   specification). *)
+From MW Require Import Model.Compile Model.Heap Proofs.RunProofs Proofs.CompileCorrect Proofs.CompileCorrect2
+  Proofs.FragmentCorollaries.
+
+(* a result of Vm.eval other than NoFuel is the result for every larger fuel (NoFuel stands
+   for "does not finish within the fuel of the model") *)
+Theorem C06_eval_fuel_monotone : forall (ob : N -> M vcell) f g e s, (f <= g)%nat ->
+  eval ob f e s <> RNoFuel -> eval ob g e s = eval ob f e s.
+Proof. exact eval_fuel_mono. Qed.
+Print Assumptions C06_eval_fuel_monotone.
+
+(* the generic step: if for every sufficient fuel the evaluation of e on s is the HALT exit of
+   a machine whose %acc represents a reference value r, then NO fuel makes it a panic *)
+Theorem C06_eval_halt_no_panic : forall (ob : N -> M vcell) e s n m r,
+  (forall fuel, (n <= fuel)%nat -> eval ob fuel e s = halt_result m) ->
+  vrep (acc m) r (hp m) (st m) ->
+  forall fuel k, eval ob fuel e s <> RPanic k.
+Proof. exact eval_halt_no_panic. Qed.
+Print Assumptions C06_eval_halt_no_panic.
+
+(* Fragment 1 (constants, quote, if, global variables, global define / set!, application of
+   an expression that evaluates to a builtin).  Under exactly the premises of
+   C01_eval_fragment — every builtin satisfies its specification [builtin_ok ob bsem b] (true
+   for every table with the empty specification, proved for the real `not`), e is well formed,
+   the reference semantics gives e a value r in the global environment rho, the machine s
+   satisfies [minv] (interning invariant of the heap, injective global slots, sp < capacity;
+   proved for the empty machine, NOT for the booted one) and agrees with rho, the macro
+   expander leaves the form alone — Vm.eval does not panic, for ANY fuel (in particular none
+   of the unwrap / expect / index sites of the compiler and of the run loop is reached) *)
+Theorem C06_fragment_no_panic :
+  forall (ob : N -> M vcell) (bsem : N -> list rval -> option rval),
+  (forall b, builtin_ok ob bsem b) ->
+  forall e rho r rho' s,
+  wf_expr e -> ref_eval bsem rho e r rho' -> minv s -> genv_rel rho s ->
+  transform_expr TRANSFORM_FUEL s (cell_of e) = Ok (cell_of e) ->
+  forall fuel k, eval ob fuel (cell_of e) s <> RPanic k.
+Proof. exact fragment_no_panic. Qed.
+Print Assumptions C06_fragment_no_panic.
+
+(* ... more precisely, for any fuel the outcome is NoFuel (of the run loop, or of the final
+   get_as_cell whose fuel is an artefact of the model) or Done of the reference value: never
+   an error value either *)
+Theorem C06_fragment_outcome :
+  forall (ob : N -> M vcell) (bsem : N -> list rval -> option rval),
+  (forall b, builtin_ok ob bsem b) ->
+  forall e rho r rho' s,
+  wf_expr e -> ref_eval bsem rho e r rho' -> minv s -> genv_rel rho s ->
+  transform_expr TRANSFORM_FUEL s (cell_of e) = Ok (cell_of e) ->
+  forall fuel, eval ob fuel (cell_of e) s = RNoFuel \/
+               exists s', eval ob fuel (cell_of e) s = ROk (Done (rcell r)) s'.
+Proof. exact fragment_outcome. Qed.
+Print Assumptions C06_fragment_outcome.
+
+(* Fragment 2 (fragment 1 + lambda expressions applied in place with local variables, CALL
+   and TCALL), under exactly the premises of C01_eval_fragment2 (additionally: a builtin with
+   a specified result leaves the lexical environments alone, [builtin_envs]) *)
+Theorem C06_fragment2_no_panic :
+  forall (ob : N -> M vcell) (bsem : N -> list rval -> option rval),
+  (forall b, builtin_ok ob bsem b) -> (forall b, builtin_envs ob bsem b) ->
+  forall e rho r rho' s,
+  wf_expr2 e [] -> ref_eval2 bsem [] [] rho e r rho' -> minv s -> genv_rel rho s ->
+  transform_expr TRANSFORM_FUEL s (cell_of2 e) = Ok (cell_of2 e) ->
+  forall fuel k, eval ob fuel (cell_of2 e) s <> RPanic k.
+Proof. exact fragment2_no_panic. Qed.
+Print Assumptions C06_fragment2_no_panic.
+
+Theorem C06_fragment2_outcome :
+  forall (ob : N -> M vcell) (bsem : N -> list rval -> option rval),
+  (forall b, builtin_ok ob bsem b) -> (forall b, builtin_envs ob bsem b) ->
+  forall e rho r rho' s,
+  wf_expr2 e [] -> ref_eval2 bsem [] [] rho e r rho' -> minv s -> genv_rel rho s ->
+  transform_expr TRANSFORM_FUEL s (cell_of2 e) = Ok (cell_of2 e) ->
+  forall fuel, eval ob fuel (cell_of2 e) s = RNoFuel \/
+               exists s', eval ob fuel (cell_of2 e) s = ROk (Done (rcell r)) s'.
+Proof. exact fragment2_outcome. Qed.
+Print Assumptions C06_fragment2_outcome.
+
+(* non-vacuity: the premises hold for (if (define x '(#t)) x #f) and for
+   ((lambda (x y) (if x y 'no)) #t '(1 2)) on the empty machine with the real builtin table and
+   the specification of `not` (C01_fragment_example, C01_fragment2_example); hence no fuel
+   makes their evaluation panic, and with fuel 100 the model computes a Done result *)
+Example C06_fragment_no_panic_example :
+  (forall fuel k, eval Builtins.other_builtin fuel (cell_of ex_e) (vm_empty 8192) <> RPanic k) /\
+  (forall fuel k, eval Builtins.other_builtin fuel (cell_of2 ex2_e) (vm_empty 8192) <> RPanic k) /\
+  match eval Builtins.other_builtin 100 (cell_of ex_e) (vm_empty 8192) with
+  | ROk (Done c) _ => c = ex_datum | _ => False end /\
+  match eval Builtins.other_builtin 100 (cell_of2 ex2_e) (vm_empty 8192) with
+  | ROk (Done c) _ => c = ex2_list | _ => False end.
+Proof.
+  split; [|split; [|split; vm_compute; reflexivity]].
+  - destruct ex_hypotheses as (Hwf & MI & G & HR).
+    refine (C06_fragment_no_panic Builtins.other_builtin bsem_not builtin_ok_not ex_e _ _ _ _ Hwf HR MI G _).
+    vm_compute. reflexivity.
+  - destruct ex2_hypotheses as (Hwf & MI & G & HR).
+    refine (C06_fragment2_no_panic Builtins.other_builtin bsem_not builtin_ok_not builtin_envs_not ex2_e _ _ _ _
+              Hwf HR MI G _).
+    vm_compute. reflexivity.
+Qed.
+
+(* Fragment 3 (fragment 2 + closures as values: lambda expressions in any position capturing
+   variables of enclosing lambdas, application of closures, named procedures by
+   (define f (lambda ...)), recursion through the global), under exactly the premises of
+   C01_eval_fragment3, for a reference value that is a datum or a builtin procedure *)
+From MW Require Import Proofs.Closures3 Proofs.EvalFragment3.
+Theorem C06_fragment3_no_panic :
+  forall (ob : N -> M vcell) (bsem : N -> list rval -> option rval),
+  (forall b, builtin_ok ob bsem b) -> (forall b, builtin_envs ob bsem b) ->
+  forall e rho b rho' s,
+  wf3 e [] -> ref_eval3 bsem [] [] rho e (R3Base b) rho' -> minv s -> genv_rel3 rho s ->
+  transform_expr TRANSFORM_FUEL s (cell_of3 e) = Ok (cell_of3 e) ->
+  forall fuel k, eval ob fuel (cell_of3 e) s <> RPanic k.
+Proof. exact fragment3_no_panic. Qed.
+Print Assumptions C06_fragment3_no_panic.
+
+Theorem C06_fragment3_outcome :
+  forall (ob : N -> M vcell) (bsem : N -> list rval -> option rval),
+  (forall b, builtin_ok ob bsem b) -> (forall b, builtin_envs ob bsem b) ->
+  forall e rho b rho' s,
+  wf3 e [] -> ref_eval3 bsem [] [] rho e (R3Base b) rho' -> minv s -> genv_rel3 rho s ->
+  transform_expr TRANSFORM_FUEL s (cell_of3 e) = Ok (cell_of3 e) ->
+  forall fuel, eval ob fuel (cell_of3 e) s = RNoFuel \/
+               exists s', eval ob fuel (cell_of3 e) s = ROk (Done (rcell b)) s'.
+Proof. exact fragment3_outcome. Qed.
+Print Assumptions C06_fragment3_outcome.
+
+(* non-vacuity: (((lambda (x) (lambda (y) (if y x 'no))) '(1 2)) #t) on the empty machine *)
+Example C06_fragment3_no_panic_example :
+  (forall fuel k, eval Builtins.other_builtin fuel (cell_of3 ex4_e) (vm_empty 8192) <> RPanic k) /\
+  match eval Builtins.other_builtin 200 (cell_of3 ex4_e) (vm_empty 8192) with
+  | ROk (Done c) _ => c = ex2_list | _ => False end.
+Proof.
+  split; [|vm_compute; reflexivity].
+  destruct ex4_hypotheses as (Hwf & MI & G & HR).
+  refine (C06_fragment3_no_panic Builtins.other_builtin bsem_not builtin_ok_not builtin_envs_not ex4_e _ _ _ _
+            Hwf HR MI G _).
+  vm_compute. reflexivity.
+Qed.
